@@ -75,15 +75,22 @@ func (b *SyncBacklog) Range(fromSeq, toSeq uint64) []*hapb.SyncSessionRequest {
 	oldest := (b.head - b.size + b.capacity) % b.capacity
 	oldestSeq := b.entries[oldest].Sequence
 
+	newestSeq := oldestSeq + uint64(b.size-1)
+
+	// Clamp in uint64 before converting to int: a bound of 2^63 or more would
+	// otherwise turn into a negative offset or count.
 	if fromSeq < oldestSeq {
 		fromSeq = oldestSeq
+	}
+	if toSeq > newestSeq {
+		toSeq = newestSeq
+	}
+	if fromSeq > toSeq {
+		return nil
 	}
 
 	startOffset := int(fromSeq - oldestSeq)
 	count := int(toSeq-fromSeq) + 1
-	if startOffset+count > b.size {
-		count = b.size - startOffset
-	}
 	if count <= 0 {
 		return nil
 	}
